@@ -181,6 +181,20 @@ PROPS = {
         assumptions=["CPython attribute reads/writes are atomic (GIL)", "threading.RLock semantics",
                      "the only object shared between sessions is the engine (ast read-out of server.py)"],
     ),
+    "C20": dict(
+        modules=["harness.c20"],
+        level="other",
+        explanation="Non-interference by self-composition under bounded symbolic execution: each scenario runs twice "
+                    "through the real engine (and, for request bytes, the real session and decoder) with two "
+                    "independent symbolic secrets and everything else equal; the solver must show every log record at "
+                    "INFO or above and every result message equal in the two runs on every path.",
+        stubs=["recording loggers (str.format / repr left real)", "engine.time pinned", "RecordingCrypto / SecretCrypto",
+               "FakeSession", "FakeConnection / FakeCert", "binascii.hexlify -> b'' in the session's DEBUG records"],
+        outside=["DEBUG-level records", "traceback source-line text", "third-party loggers (SQLAlchemy, cryptography)",
+                 "the real crypto backend's error texts (C06)", "secrets longer than 8 bytes (no length-dependent "
+                 "branch on secret bytes is taken: the reachability twin runs with the same length)"],
+        assumptions=["the observables of the statement are log records >= INFO and result messages"],
+    ),
     "C15": dict(
         modules=["harness.c15"],
         level="other",
@@ -238,6 +252,16 @@ PROPS = {
 }
 
 CLAIMS = {
+    "C20": dict(
+        text="For each scenario (every secret-carrying operation with its listed success and failure variants, "
+             "through the engine; Register request bytes of five shapes and password credentials through the real "
+             "session) two executions that differ only in the secret (independent symbolic bytes) produce identical "
+             "log records at INFO and above and identical result status / reason / message - decided over all paths "
+             "of the real code; a dependence on the secret is returned as a pair of secrets with the differing record.",
+        note="Loggers replaced by recording loggers (formatting left real); clock pinned; recording crypto backend; "
+             "where the code realises a secret (repr of bytes inside a DEBUG-only format) the condition is reported "
+             "inconclusive, never as passing.",
+    ),
     "C10": dict(
         text="BOUNDED MODEL over recorded traces: for every pair (thorough: listed triples) of requests from the "
              "menu, served by different sessions on one engine, z3 shows that no interleaving of their recorded "
